@@ -373,10 +373,16 @@ const (
 	wkBasicMutable = iota
 	wkOverlayOverBasic
 	wkOverlayWithSnapshot // overlay, some edits, Snapshot(), more edits
-	wkCount
+	wkCount               // kinds every history scenario uses
+	// further kinds, used where the scenario's oracle does not depend on the
+	// base's own reference queries
+	wkOverlayOverStaticOverlay = 3
+	wkOverlayOverFrozenOverlay = 4
+	wkOverlayOverCompact       = 5
+	wkCountAll                 = 6
 )
 
-var worldKindNames = []string{"BasicMutableWorld", "MutableOverlayWorld(basic base)", "MutableOverlayWorld(after Snapshot)"}
+var worldKindNames = []string{"BasicMutableWorld", "MutableOverlayWorld(basic base)", "MutableOverlayWorld(after Snapshot)", "MutableOverlayWorld(OverlayWorld base)", "MutableOverlayWorld(MutableOverlayWorld base)", "MutableOverlayWorld(compact base)"}
 
 // makeMutableWorld builds a mutable world holding the base city. For the
 // overlay kinds the base city lives in an immutable basic world underneath.
@@ -395,6 +401,12 @@ func makeMutableWorld(rc *RC, g *cityGen, kind int, base []*fspec) (ingest.Mutab
 		b, err := newBasicWorld(base)
 		if err != nil {
 			return nil, fmt.Errorf("fixture basic world: %v", err)
+		}
+		return ingest.NewMutableOverlayWorld(b), nil
+	case wkOverlayOverStaticOverlay, wkOverlayOverFrozenOverlay, wkOverlayOverCompact:
+		b, err := newBaseWorld(map[int]int{wkOverlayOverStaticOverlay: bkStaticOverlay, wkOverlayOverFrozenOverlay: bkFrozenOverlay, wkOverlayOverCompact: bkCompact}[kind], base)
+		if err != nil {
+			return nil, fmt.Errorf("fixture base world: %v", err)
 		}
 		return ingest.NewMutableOverlayWorld(b), nil
 	}
